@@ -445,7 +445,7 @@ func genC07(r *Rng, immediate bool) c07Case {
 func checkC07(rep *Report, rng *Rng, tier string) {
 	n := 120
 	if tier == "thorough" {
-		n = 1200
+		n = 600
 	}
 	rep.Rule = "fault enumeration on seeded histories over a re-opened (nothing cached) file: (A) for chosen calls every file call k=1..all is made to fail in turn, writes also torn at 1, len/2, len-1 bytes (thorough: every length), each followed by: error returned, no panic/hang, bytes below the store size unchanged, contents of every handle equal to the pre-fault reference, a fresh Store on a copy of the image shows the last Flush; (B) random single faults on about half of the calls of a longer history with the contents verified only at the end (keeps the lazy/unloaded state alive so stale recycling marks surface); fault-free continuation compared with the reference; non-trivial = at least one fault fired, distinct = different history"
 	st := &c07Stats{ByKind: map[string]int{}, ByOp: map[string]int{}}
@@ -514,7 +514,7 @@ func checkC07(rep *Report, rng *Rng, tier string) {
 	rep.Evaluations += 2
 	budget := 4000 // enumerated runs (mode A)
 	if tier == "thorough" {
-		budget = 80000
+		budget = 40000
 	}
 	for i := 0; i < n; i++ {
 		r := rng.Fork()
@@ -574,7 +574,7 @@ func checkC07(rep *Report, rng *Rng, tier string) {
 	// Flush, FlushRevert and re-open -- is compared with the byte-level fault model (DiskFault.flush_fault)
 	nC, perC, maxK := 4, 1, 30
 	if tier == "thorough" {
-		nC, perC, maxK = 80, 4, 1 << 30
+		nC, perC, maxK = 30, 3, 1 << 30
 	}
 	for i := 0; i < nC && len(rep.Violations) == 0; i++ {
 		r := rng.Fork()
@@ -621,7 +621,7 @@ func checkC07(rep *Report, rng *Rng, tier string) {
 	// in turn, then retried: the calls of the failed attempt and of the retry are compared with LazyFault.get_fault_reads
 	nD := 6
 	if tier == "thorough" {
-		nD = 80
+		nD = 40
 	}
 	for i := 0; i < nD && len(rep.Violations) == 0; i++ {
 		r := rng.Fork()
